@@ -298,6 +298,7 @@ pub fn run(tier: &str) -> i32 {
         }
     }
     huge_tables(&mut rep, thorough);
+    adapters(&mut rep);
     rep.set("explanation".into(), json!("states = odometer states (1176 positions x product of range sizes) the real iterator walks through; transitions = next() calls made; each configuration's complete yield is compared as a multiset per position with the reference enumerator"));
     rep.bound("ranges are subsets of an 8-combo alphabet built to collide, plus prefixes/suffixes of the 1326 combos; not all 2^1326 ranges");
     rep.bound(if thorough { "flops: 8 structured flops for the subset families, all 22,100 for the single-combo/full-alphabet family" } else { "flops: 8 structured flops (all 22,100 in thorough)" });
@@ -406,6 +407,94 @@ fn huge_tables(rep: &mut Report, thorough: bool) {
     }
     rep.machine(yielded_total.max(1), yielded_total.max(1), n_tables);
     rep.sub("huge-tables", "tables whose product of range sizes exceeds 2^64 (8x256 = 2^64 exactly, 7x600, 10x300, ...): the first K showdowns are taken; each must be a legal deal of the players' own ranges, none twice, and K must be reached. Ranges are shifted so that the combos the evaluator tries first do not collide (keeps the prefix cheap). distinct_nontrivial = showdowns inspected", n_tables, yielded_total, false, json!({"take": k_take}));
+}
+
+/// "iterating the evaluator" is more than a for loop: the other consuming methods of Iterator must see the
+/// same sequence as repeated next() calls
+fn adapters(rep: &mut Report) {
+    use vlib::report::catch;
+    let mut cfgs: Vec<Config> = vec![];
+    for f in [FLOPS8[0], FLOPS8[2], FLOPS8[3]] {
+        let a = alphabet(&f);
+        for m in [0b1u32, 0b100000, 0b1000000, 0b11100001, 0b01100110, 0xff] {
+            cfgs.push(cfg(f, vec![subset_range(&a, m, 0, &DYADIC)]));
+            cfgs.push(cfg(f, vec![subset_range(&a, m, 0, &DYADIC), subset_range(&a, 0b10011, 1, &DYADIC)]));
+        }
+    }
+    let outs = par_map(cfgs.len(), |i| {
+        let c = cfgs[i].clone();
+        let deck = deck_without(&c.flop);
+        catch(move || {
+            let sig = |sd: &espada::evaluator::Showdown| -> (Option<usize>, u128, u32) {
+                let r = reduce(sd, &c.flop, &deck);
+                (r.pos_unordered(), r.combo_key(), r.prob.to_bits())
+            };
+            let base: Vec<(Option<usize>, u128, u32)> = c.evaluator().into_iter().map(|sd| sig(&sd)).collect();
+            let n = base.len();
+            let mut problems: Vec<String> = vec![];
+            let cnt = c.evaluator().into_iter().count();
+            if cnt != n {
+                problems.push(format!("count() = {} but next() yields {} showdowns", cnt, n));
+            }
+            let last = c.evaluator().into_iter().last().map(|sd| sig(&sd));
+            if last != base.last().cloned() {
+                problems.push("last() is not the last showdown next() yields".into());
+            }
+            for k in [0usize, 1, 2, n / 2, n.saturating_sub(1), n, n + 3] {
+                let mut it = c.evaluator().into_iter();
+                let got = it.nth(k).map(|sd| sig(&sd));
+                if got != base.get(k).cloned() {
+                    problems.push(format!("nth({}) differs from the showdown at that place", k));
+                }
+                let rest = it.count();
+                if rest != n.saturating_sub(k + 1) {
+                    problems.push(format!("after nth({}) count() = {}, expected {}", k, rest, n.saturating_sub(k + 1)));
+                }
+            }
+            let folded = c.evaluator().into_iter().fold(0usize, |a, _| a + 1);
+            if folded != n {
+                problems.push(format!("fold visits {} showdowns, next() yields {}", folded, n));
+            }
+            let mut it = c.evaluator().into_iter();
+            let mut seen = 0usize;
+            loop {
+                let (lo, hi) = it.size_hint();
+                let remaining = n - seen;
+                if lo > remaining || hi.map(|h| h < remaining).unwrap_or(false) {
+                    problems.push(format!("size_hint() = ({}, {:?}) with {} showdowns still to come", lo, hi, remaining));
+                    break;
+                }
+                if it.next().is_none() {
+                    break;
+                }
+                seen += 1;
+            }
+            let skipped: Vec<_> = c.evaluator().into_iter().skip(n / 3).step_by(2).map(|sd| sig(&sd)).collect();
+            let expect: Vec<_> = base.iter().skip(n / 3).step_by(2).cloned().collect();
+            if skipped != expect {
+                problems.push("skip().step_by() sees a different sequence".into());
+            }
+            (n, problems)
+        })
+    });
+    let mut n_cfg = 0u64;
+    let mut sds = 0u64;
+    for (i, o) in outs.into_iter().enumerate() {
+        n_cfg += 1;
+        let c = &cfgs[i];
+        match o {
+            Ok((n, problems)) => {
+                sds += n as u64;
+                if let Some(p) = problems.first() {
+                    rep.violation(Violation { key: format!("{} adapters", c.key()), sub: "iterator-adapters".into(), case: json!({"config": c.to_json()}), expected: json!("count / last / nth / fold / size_hint / skip+step_by agree with repeated next()"), observed: json!(problems.iter().take(3).collect::<Vec<_>>()) });
+                    let _ = p;
+                }
+            }
+            Err(e) => rep.violation(Violation { key: format!("{} adapters", c.key()), sub: "iterator-adapters".into(), case: json!({"config": c.to_json()}), expected: json!("runs"), observed: json!({"panic": e}) }),
+        }
+    }
+    rep.machine(sds.max(1), sds.max(1), n_cfg);
+    rep.sub("iterator-adapters", "36 configurations (ranges with and without flop cards): count(), last(), nth(k) for k around both ends (and count() of the rest), fold, size_hint before every next(), skip().step_by() must agree with the sequence repeated next() yields (which the other families compare with M-deals)", n_cfg * 12, n_cfg, false, json!({"showdowns_in_base_runs": sds}));
 }
 
 pub fn replay(case: &Value) -> Value {
